@@ -16,12 +16,14 @@ def cubes_ops(tier):
         out += [dict(ops="S", cls="local", prop="C01", pre=p) for p in (1, 2)] + [dict(ops="SX", cls="base", prop="C01", trailing=True, depth=[1, 2, 0])]
         out += [dict(ops="SI", cls="local", prop="C01", names=n, state=True, depth=[1, 2, 2], _w=2) for n in (1, 2)]
         out += [dict(ops="SM", cls=c, prop="C01", dirname=True, _w=2) for c in ("local", "base")]  # stores below a folder named '*.dir*'
+        out += [dict(ops="SM", cls="base", prop="C01", cross=True, _w=2)]  # migrate an unprotecting base store into a local store (hardlinks)
         return out
     seqs += ["US", "SIM", "FSX", "UXM", "SXI", "LSM", "SL", "LU"]
     out = [dict(ops=o, cls=c, prop="C01", names=n, state=st, pre=p, _w=len(o))
            for o in seqs for c in ("local", "base") for n, st, p in ((0, False, 0), (1, True, 1), (2, False, 2))]
     out += [dict(ops="SXM", cls=c, prop="C01", depth=d, names=1, _w=3) for c in ("local", "base") for d in ([0, 0, 0], [2, 2, 2], [1, 2, 2])]
     out += [dict(ops=o, cls=c, prop="C01", dirname=True, names=1, _w=3) for c in ("local", "base") for o in ("SXM", "SIM", "LSM")]
+    out += [dict(ops=o, cls=c, prop="C01", cross=True, names=n, _w=3) for c in ("local", "base") for o in ("SM", "SXM", "UM") for n in (0, 1)]
     return out
 
 
